@@ -327,6 +327,10 @@ def probe(ctx, m, tag):
     ctx.check(o.ok and isinstance(o.value, tuple) and list(o.value) == [ref.mult(L, q) for _, q in probes], "query:mult-seq", f"mult(sequence) wrong after {tag}")
     num = "frac" if m.exact else "float"
     outs = [lib.num(L[0] - 1, num), lib.num(L[-1] + 1, num), lib.num(L[0] - F(1, 500), num), lib.num(L[-1] + F(1, 500), num), math.inf, -math.inf]
+    if m.exact:
+        outs += [L[-1] + F(1, 10**12), L[0] - F(1, 10**12), L[-1] + F(1, 10**30)]
+    else:
+        outs += [math.nextafter(float(L[-1]), math.inf), math.nextafter(float(L[0]), -math.inf), float(L[-1]) + 1e-9 * max(1.0, abs(float(L[-1])))]
     for x in outs:
         o = call(kv.valid, x)
         ctx.check(o.ok and o.value is False, "query:valid-outside", f"valid({x}) = {o.value if o.ok else o.brief()} outside [{L[0]},{L[-1]}] after {tag}")
